@@ -1,5 +1,6 @@
 import Norad.Model.FontSave
 import Norad.Lemmas.FontSave
+import Norad.Lemmas.SafePlan
 /-!
 # C09 — a saved tree depends only on the font and stays inside the target
 
@@ -60,13 +61,90 @@ theorem images_planned_iff_nonempty (t : APath) (items : List (Path.P × β)) :
   unfold planImages
   cases items <;> simp
 
-/-! ### `save_frame` is false on the tree for fonts with unsafe relative paths (recorded findings)
+/-! ### frame and determined tree, for fonts whose relative paths are safe -/
 
-Full statement: for every `p` that is not at or below `t`, `lookup (saveImpl cfg f fs t).2 p = lookup fs p`.
-OPEN (statement kept, not yet proved): `save_frame_partial` — the full statement under the guard
-`safePaths f = true`; `exactly_the_determined_files` — after a successful save of a font with safe paths the
-paths at and below `t` are exactly `expectedPaths f t`; both are checked on every generated case by the
-oracle rules `frame` and `exact-files` on the implementation's own output. -/
+theorem forced_safe {cfg : Cfg β} {f : AFont β} {fs : FS β} {d i : List (Path.P × β)}
+    (hs : safePaths f = true) (hv : validatePhase cfg f fs = .ok (d, i)) :
+    (∀ kb ∈ d, safeRel kb.1 = true) ∧ (∀ kb ∈ i, safeRel kb.1 = true) := by
+  obtain ⟨hfd, hfi⟩ := validatePhase_ok_stores hv
+  unfold safePaths at hs
+  simp only [Bool.and_eq_true, List.all_eq_true] at hs
+  obtain ⟨⟨_, hsd⟩, hsi⟩ := hs
+  constructor
+  · intro kb hkb
+    obtain ⟨c, hc⟩ := forced_keys hfd kb hkb
+    exact hsd _ hc
+  · intro kb hkb
+    obtain ⟨c, hc⟩ := forced_keys hfi kb hkb
+    exact hsi _ hc
+
+/-- **`save_frame`** (guard `safePaths`; without it: the two counterexamples below).  Whatever the outcome of the
+    save — success, refusal, or a failure half-way — every path that is not at or below the target has the same
+    node before and after. -/
+theorem save_frame (cfg : Cfg β) (f : AFont β) (fs : FS β) (t : APath) (hs : safePaths f = true) :
+    ∀ q, ¬ t <+: q → lookup (saveImpl cfg f fs t).2 q = lookup fs q := by
+  intro q hq
+  unfold saveImpl
+  cases hv : validatePhase cfg f fs with
+  | error k => rfl
+  | ok di =>
+    obtain ⟨d, i⟩ := di
+    simp only
+    cases hw : wipe fs t with
+    | error e => rfl
+    | ok fs1 =>
+      simp only
+      obtain ⟨hd, hi⟩ := forced_safe hs hv
+      rw [plan_normal cfg f d i t hs hd hi]
+      have := planN_frame cfg f d i t hd fs1 q hq
+      unfold runN at this
+      rw [this]
+      exact wipe_frame hw q hq
+
+theorem runN_cons_ok {e : NEff β} {es : List (NEff β)} {g g' : FS β} (h : runN (e :: es) g = (none, g')) :
+    ∃ g2, runEff e.toEff g = (none, g2) ∧ runN es g2 = (none, g') := by
+  simp only [runN, List.map, runEffs] at h
+  generalize hr : runEff e.toEff g = res at h
+  obtain ⟨o, x⟩ := res
+  cases o with
+  | none => exact ⟨x, rfl, h⟩
+  | some y => simp at h
+
+/-- **`save_tree_depends_only_on_font`** at file-system level: two successful saves of the same font (safe paths,
+    nothing lazy) onto the same target path in two arbitrary well-formed file systems produce the same sub-tree
+    at and below the target — paths, kinds and bytes.  Hence no remains of whatever was there before, and the
+    result equals a save into a fresh path. -/
+theorem save_tree_depends_only_on_font (cfg : Cfg β) (f : AFont β) (fsA fsB fsA' fsB' : FS β) (t : APath)
+    (hs : safePaths f = true) (hd : NoLazy f.data) (hi : NoLazy f.images) (hwA : WF fsA) (hwB : WF fsB)
+    (hA : saveImpl cfg f fsA t = (none, fsA')) (hB : saveImpl cfg f fsB t = (none, fsB')) :
+    ∀ q, t <+: q → lookup fsA' q = lookup fsB' q := by
+  obtain ⟨dA, iA, fs1A, hvA, hwipeA, hrunA⟩ := saveImpl_ok hA
+  obtain ⟨dB, iB, fs1B, hvB, hwipeB, hrunB⟩ := saveImpl_ok hB
+  have hveq := save_effects_depend_only_on_font cfg f fsA fsB hd hi
+  rw [hvA, hvB] at hveq
+  cases hveq
+  obtain ⟨hsd, hsi⟩ := forced_safe hs hvA
+  rw [plan_normal cfg f dA iA t hs hsd hsi] at hrunA hrunB
+  obtain ⟨g2A, hmA, hrestA⟩ := runN_cons_ok (es := planRestN cfg f dA iA t) hrunA
+  obtain ⟨g2B, hmB, hrestB⟩ := runN_cons_ok (es := planRestN cfg f dA iA t) hrunB
+  simp only [NEff.toEff, runEff] at hmA hmB
+  cases hkA : mkdir fs1A (tC t) with
+  | error x => simp [hkA] at hmA
+  | ok a =>
+    cases hkB : mkdir fs1B (tC t) with
+    | error x => simp [hkB] at hmB
+    | ok b =>
+      simp only [hkA] at hmA; simp only [hkB] at hmB
+      cases hmA; cases hmB
+      have cA := wipe_mkdir_clean hwA hwipeA hkA
+      have cB := wipe_mkdir_clean hwB hwipeB hkB
+      exact runN_agree t _ hrestA hrestB (fun q hq => by rw [cA q hq, cB q hq])
+
+/-! ### `save_frame` is false without the guard (recorded findings)
+
+OPEN: `exactly_the_determined_files` in the form "the paths at and below `t` after a successful save are exactly
+`expectedPaths f t`" (checked on every generated case by the oracle rule `exact-files`); what is proved is that
+the sub-tree is a function of the font (`save_tree_depends_only_on_font`) and the emptiness gates of the plan. -/
 
 def cfgN : Cfg Nat := { render := fun _ => 0, entryOk := fun _ _ _ _ => true }
 
